@@ -815,6 +815,29 @@ func (s *Script) Assert(t *Term) {
 	s.Raw("(assert " + sb.String() + ")")
 }
 
+// Pre transforms (see dropQ) and prepares a term now, so that it can be asserted later inside a push/pop scope
+// without its definitions being lost at the pop.
+func (s *Script) Pre(t *Term) *Term {
+	if s.dropQ {
+		if s.dmemo[0] == nil {
+			s.dmemo[0], s.dmemo[1] = map[int]*Term{}, map[int]*Term{}
+		}
+		t = dropQuant(t, true, &s.dmemo)
+	}
+	s.prepare(t)
+	return t
+}
+
+// AssertPre asserts a term returned by Pre.
+func (s *Script) AssertPre(t *Term) {
+	if t == True {
+		return
+	}
+	var sb strings.Builder
+	s.p.write(&sb, t)
+	s.Raw("(assert " + sb.String() + ")")
+}
+
 func (s *Script) TermString(t *Term) string {
 	s.prepare(t)
 	var sb strings.Builder
